@@ -33,6 +33,12 @@ BINDINGS_T = BINDINGS_Q + [
     {"filler": 50, "inner": 8, "block": 90, "paysz": 2000, "bpay": 200, "pivot": 1},
 ]
 # two f1 groups, each: point key, block key, point key (adjacent in the concrete map when inner = 0)
+# no filler above the last group: the model keys of the last group are the end of the key space; trees of >= 3 levels
+BINDINGS_TAIL = [
+    {"filler": 2500, "inner": 0, "block": 300, "paysz": 20, "pivot": 0, "notail": 1},
+    {"filler": 6000, "inner": 0, "block": 120, "paysz": 10, "bpay": 8, "pivot": 1, "notail": 1},
+    {"filler": 15000, "inner": 1, "block": 900, "paysz": 40, "pivot": 1, "align": 1, "notail": 1},
+]
 K6 = dict(F1=[0, 1], F2=[0, 1, 2], blocks=[1, 11], twin=[])
 SIM = {"quick": dict(K6, cfg="c14_sim_quick.cfg", num=400, depth=10),
        "thorough": dict(K6, cfg="c14_sim_thorough.cfg", num=1200, depth=14)}
@@ -137,14 +143,31 @@ def run(ctx):
     # streams carry the same chunk with different start keys (SendPatches' "same To, different KeyBelowStart" branch)
     nfocus = 0
     if not ctx.violations:
-        aligned = [b for b in bindings if b.get("align")]
-        for sh, cases in bd.gen_all(ctx, "focus", "MapMerge.tla", "c14_gen_focus.cfg", [0], 1, procs=1, timeout=ctx.q(3000, 30000)):
+        aligned = [b for b in bindings if b.get("pivot")]      # boundary-aware bindings: pivot keys, with and without aligned blocks
+        fshards = [ctx.seed % 4] if ctx.tier == "quick" else [0, 1, 2, 3]
+        for sh, cases in bd.gen_all(ctx, "focus", "MapMerge.tla", "c14_gen_focus.cfg", fshards, 4, procs=ctx.q(1, 4), timeout=ctx.q(3000, 30000)):
             fcs = mk_cases(ctx, bd.sub(cases), GEN[ctx.tier], aligned)
             nfocus += len(fcs)
             r3 = ctx.replay_behaviours(binary, fcs, args=["merge"], critical=critical, wrap=lambda c: c, fingerprint=bd.fingerprint("C14"))
             tally(r3, agg)
+    # ---------------------------------------------------------------- (4) tail triples on trees of >= 3 levels without filler above the last group
+    # the right side truncates the map (its new tail leaf lies inside the shared part, reached through level-2 / level-1
+    # range patches that getNextAndSplitIfAtEnd must split down to the leaf), the left side appends past the old end
+    ntail = 0
+    tail_deep = 0
+    if not ctx.violations:
+        for sh, cases in bd.gen_all(ctx, "tail", "MapMerge.tla", "c14_gen_tail.cfg", [0], 1, procs=1, timeout=ctx.q(3000, 30000)):
+            tcs = mk_cases(ctx, bd.sub(cases), GEN[ctx.tier], ctx.q(BINDINGS_TAIL[:2], BINDINGS_TAIL))
+            ntail += len(tcs)
+            r4 = ctx.replay_behaviours(binary, tcs, args=["merge"], critical=critical, wrap=lambda c: c, fingerprint=bd.fingerprint("C14"))
+            tally(r4, agg)
+            tail_deep += sum(1 for r in r4 if r.get("ok") and r.get("heights", [0, 0, 0])[2] >= 3)
+        if ntail and not ctx.violations and tail_deep == 0:
+            raise bd.vlib.Inconclusive("vacuity: no tail triple was merged with a right tree of >= 3 levels")
     ctx.cov.update(agg)
     ctx.cov["generated_triples"] = ntriples
+    ctx.cov["tail_triples"] = ntail
+    ctx.cov["tail_triples_with_right_tree_of_3_levels"] = tail_deep
     ctx.cov["focus_triples"] = nfocus
     if ctx.tier == "thorough" and not ctx.violations:
         ctx.cov["exhaustive"] = True
